@@ -61,11 +61,13 @@ type Closure struct {
 
 // State: the mutable symbolic state; persistent-by-copy.
 type State struct {
+	BR    *Term // branch conditions only (no assumptions): identifies the paths merged into this state
 	PC    *Term
 	Heaps map[string]*Term
 	Cells map[*Cell]*Term
 	// Go-side knowledge that survives only while all merged states agree
 	Clos   map[*Term]*Closure // func-value term -> closure
+	Snap     *State          // snapshot taken by a `callsite ... snapshot` clause
 	CellAddr map[*Cell]*Addr // pointer-typed cells currently holding a Go-side (interior) address
 	Defers []*DeferRec
 	Dead   bool
@@ -81,7 +83,7 @@ type DeferRec struct {
 }
 
 func (s *State) Clone() *State {
-	n := &State{PC: s.PC, Heaps: make(map[string]*Term, len(s.Heaps)), Cells: make(map[*Cell]*Term, len(s.Cells)), Clos: make(map[*Term]*Closure, len(s.Clos)), Dead: s.Dead, Epoch: s.Epoch}
+	n := &State{BR: s.BR, PC: s.PC, Heaps: make(map[string]*Term, len(s.Heaps)), Cells: make(map[*Cell]*Term, len(s.Cells)), Clos: make(map[*Term]*Closure, len(s.Clos)), Dead: s.Dead, Epoch: s.Epoch}
 	for k, v := range s.Heaps {
 		n.Heaps[k] = v
 	}
@@ -92,6 +94,7 @@ func (s *State) Clone() *State {
 		n.Clos[k] = v
 	}
 	n.Defers = append([]*DeferRec{}, s.Defers...)
+	n.Snap = s.Snap
 	if len(s.CellAddr) > 0 {
 		n.CellAddr = make(map[*Cell]*Addr, len(s.CellAddr))
 		for k, v := range s.CellAddr {
@@ -174,6 +177,7 @@ func (X *Exec) merge2(a, b *State) *State {
 	ts := X.E.TS
 	n := &State{Heaps: map[string]*Term{}, Cells: map[*Cell]*Term{}, Clos: map[*Term]*Closure{}}
 	n.PC = ts.Or(a.PC, b.PC)
+	n.BR = ts.Or(a.br(ts), b.br(ts))
 	n.Epoch = a.Epoch
 	if a.Epoch != b.Epoch {
 		X.epochSeq++
@@ -181,7 +185,10 @@ func (X *Exec) merge2(a, b *State) *State {
 	}
 	// condition selecting a's values: the branch literal on which the two paths diverged
 	// (never the whole path condition: that drags quantified assumptions into ite conditions)
-	sel := X.divergence(a.PC, b.PC)
+	sel := X.divergence(a.br(ts), b.br(ts))
+	if isTrue(sel) || isFalse(sel) || a.BR == nil || b.BR == nil {
+		sel = X.divergence(a.PC, b.PC)
+	}
 	pick := func(x, y *Term) *Term {
 		if x == y {
 			return x
@@ -243,6 +250,9 @@ func (X *Exec) merge2(a, b *State) *State {
 			n.CellAddr[c] = ba
 		}
 	}
+	if a.Snap == b.Snap {
+		n.Snap = a.Snap
+	}
 	// defers: must agree (same records); otherwise guard them
 	n.Defers = mergeDefers(ts, a, b)
 	return n
@@ -283,6 +293,19 @@ func mergeDefers(ts *TermStore, a, b *State) []*DeferRec {
 		out = append(out, guard(d, b.PC))
 	}
 	return out
+}
+
+func (s *State) br(ts *TermStore) *Term {
+	if s.BR == nil {
+		return ts.True()
+	}
+	return s.BR
+}
+
+// branch: take a control-flow decision (recorded in BR as well as in PC)
+func (s *State) branch(ts *TermStore, c *Term) {
+	s.BR = ts.And(s.br(ts), c)
+	s.assume(ts, c)
 }
 
 func (s *State) assume(ts *TermStore, c *Term) {
@@ -337,6 +360,17 @@ func (X *Exec) divergence(a, b *Term) *Term {
 	for _, t := range db {
 		if t.Op == "not" && !containsQuant(t) {
 			// b asserts not(x); if every alternative of a implies x we cannot tell cheaply - skip
+		}
+	}
+	if len(da) > 0 && len(da) <= 3 {
+		allQF := true
+		for _, t := range da {
+			if containsQuant(t) {
+				allQF = false
+			}
+		}
+		if allQF {
+			return ts.And(da...)
 		}
 	}
 	var qf []*Term
